@@ -44,6 +44,9 @@ func runC13(p *Prog, r *Report) {
 		"R-INV: every function outside the cached computation that may write a field the computation reads (field-based, transitively) invalidates the cache on every path through the write, or all its callers do, up to the exported API.")
 	ruleKeyFields(p, r, keyFieldsCfg{pkg: "harfbuzz", keyType: "shapePlan", initRecv: "shapePlan", initFn: "init", eqRecv: "shapePlan", eqFn: "equal",
 		lookupRecv: "Buffer", lookup: "newShapePlanCached", cacheRecv: "Buffer", cacheFld: "planCache"})
+	r.Explain = append(r.Explain, "R-KEY/globals: every package-level option (exported variable of a basic type of the module) read while a shape plan is built is recorded by shapePlan.init in a field that shapePlan.equal compares.")
+	ruleKeyGlobals(p, r, keyFieldsCfg{pkg: "harfbuzz", keyType: "shapePlan", initRecv: "shapePlan", initFn: "init", eqRecv: "shapePlan", eqFn: "equal",
+		lookupRecv: "Buffer", lookup: "newShapePlanCached", cacheRecv: "Buffer", cacheFld: "planCache"}, "", "newShapePlan")
 	ruleKeyProjection(p, r, keyProjCfg{pkg: "shaping", recv: "HarfbuzzShaper", fn: "Shape", putPkg: "shaping", putRecv: "fontLRU", putFn: "Put", keyArg: 0, valueArg: 1})
 	r.Explain = append(r.Explain, "R-KEY/owned: the shape plan stored in Buffer.planCache is initialised by shapePlan.init in copy mode, so its key fields do not alias slices the caller may overwrite.")
 	ruleCacheOwned(p, r, "harfbuzz", "Buffer", "newShapePlanCached", "Buffer", "planCache", "shapePlan", "init", 1)
@@ -122,6 +125,10 @@ func controlsC13(cp *Prog, r *Report) {
 		ruleKeyFields(cp, cr, keyFieldsCfg{pkg: "cache", keyType: "planGood", initRecv: "planGood", initFn: "init", eqRecv: "planGood", eqFn: "equal", lookupRecv: "buf", lookup: "planGoodCached", cacheRecv: "buf", cacheFld: "good"})
 		ruleKeyFields(cp, cr, keyFieldsCfg{pkg: "cache", keyType: "planBad", initRecv: "planBad", initFn: "init", eqRecv: "planBad", eqFn: "equal", lookupRecv: "buf", lookup: "planBadCached", cacheRecv: "buf", cacheFld: "bad"})
 	}, "cache.buf.bad/planBad.feats", "cache.buf.bad/planBad.shaper.key")
+	expectControl(r, "R-KEY/globals", func(cr *Report) {
+		ruleKeyGlobals(cp, cr, keyFieldsCfg{pkg: "cache", keyType: "optGood", initRecv: "optGood", initFn: "init", eqRecv: "optGood", eqFn: "equal", cacheRecv: "optBuf", cacheFld: "good"}, "", "buildOptGood")
+		ruleKeyGlobals(cp, cr, keyFieldsCfg{pkg: "cache", keyType: "optBad", initRecv: "optBad", initFn: "init", eqRecv: "optBad", eqFn: "equal", cacheRecv: "optBuf", cacheFld: "bad"}, "", "buildOptBad")
+	}, "cache.optBuf.bad/CompatBad")
 	expectControl(r, "R-KEY/projection", func(cr *Report) {
 		for _, fn := range []string{"ShapeGood", "ShapeBad", "MetricsGood"} {
 			ruleKeyProjection(cp, cr, keyProjCfg{pkg: "cache", recv: "shaper", fn: fn, putPkg: "cache", putRecv: "lru", putFn: "Put", keyArg: 0, valueArg: 1})
